@@ -129,6 +129,10 @@ type Opts struct {
 	// ManyVarRoots: every root path consists of 3, 5, 6 or 7 variables (streams about the variable names a
 	// request is bound to when root and route both declare some).
 	ManyVarRoots bool
+	// Specials: the special token forms at high density — most last tokens carry a custom verb, most
+	// variables are regex variables (match-all expressions among them, also in the MIDDLE of a template),
+	// and the requests are mutated twice as often (streams about what a token form admits).
+	Specials bool
 }
 
 func (o Opts) res() []rePool {
@@ -179,6 +183,13 @@ func genTok(r *rng.R, o Opts, names *int, last, root bool) Tok {
 	*names++
 	nm := fmt.Sprintf("v%d", *names)
 	k := r.Intn(20)
+	if o.Specials && o.AllowRe && (!root || o.RootRe) && k >= 4 && k < 13 {
+		re := pickRe(r, o)
+		if o.Router != "jsr" && r.Chance(1, 3) {
+			re = len(CurlyRes) - 1 - r.Intn(2) // ".*" / ".+": one segment, whatever stands behind it in the template
+		}
+		return Tok{Kind: "re", Name: nm, Re: re}
+	}
 	switch {
 	case k < 8:
 		return Tok{Kind: "lit", Lit: r.Pick(Lits)}
@@ -540,7 +551,7 @@ func GenConfig(r *rng.R, o Opts) Config {
 					rel[i] = Tok{Kind: "var", Name: rel[i].Name}
 				}
 			}
-			if o.AllowVerb && len(rel) > 0 && rel[len(rel)-1].Kind != "wild" && r.Chance(1, 5) {
+			if o.AllowVerb && len(rel) > 0 && rel[len(rel)-1].Kind != "wild" && (o.Specials && r.Chance(3, 5) || r.Chance(1, 5)) {
 				rel[len(rel)-1].Verb = r.Pick(Verbs)
 			}
 			relStr := RenderPath(rel, o.res())
@@ -743,7 +754,11 @@ func GenReq(r *rng.R, o Opts, cfg Config) Req {
 		segs = append(segs, r.Pick(VarVals))
 	}
 	// mutations
-	for m := r.Intn(6); m < 2; m++ {
+	mut := 6
+	if o.Specials {
+		mut = 3
+	}
+	for m := r.Intn(mut); m < 2; m++ {
 		switch r.Intn(9) {
 		case 0: // swap a segment with a literal of the alphabet
 			if len(segs) > 0 {
